@@ -72,8 +72,8 @@ type Runtime struct {
 	NoParkSubscribe func(prim string) bool
 	// LateAck selects write operations whose acknowledgement is a scheduled action of its own ("ack/..."): the write has
 	// taken effect and its events flow while the caller still waits for the response (slow response, descheduled caller).
-	LateAck func(prim, op string) bool
-	immediate       sync.Mutex
+	LateAck   func(prim, op string) bool
+	immediate sync.Mutex
 	// OnWrite is called (on the scheduler goroutine) after every durable write.
 	OnWrite func(w WriteRec)
 	// Effects is shared with other fakes through the kernel-level counter.
@@ -683,7 +683,8 @@ func (m *imapSrv) Update(ctx context.Context, q *imapv1.UpdateRequest) (resp *im
 			p.ByIndex[ne.Index] = ne
 			resp = &imapv1.UpdateResponse{Entry: ientry(ne)}
 			r.notify(p, 1, ne.Key, &imapv1.Event{Key: ne.Key, Index: ne.Index, Event: &imapv1.Event_Updated_{Updated: &imapv1.Event_Updated{
-				Value: imapv1.VersionedValue{Value: ne.Val, Version: ne.Ver}, PrevValue: imapv1.VersionedValue{Value: e.Val, Version: e.Ver}}}})
+				// like the real state machine, an indexed map's Updated event carries no previous value
+				Value: imapv1.VersionedValue{Value: ne.Val, Version: ne.Ver}}}})
 		}
 		return []string{e.Key}, nil
 	})
